@@ -7,17 +7,18 @@ package xerrors
 
 //@ func (e XError) Wrap(err)
 //@   pure
-//@   ensures result != nil && fresh(result)
+//@   ensures result != nil && fresh(result) && xcode(result) == xcode(e)
 
 //@ func (e XError) Wrapf(format, args)
 //@   pure
-//@   ensures result != nil && fresh(result)
+//@   ensures result != nil && fresh(result) && xcode(result) == xcode(e)
 
 //@ func (e XError) Error()
 //@   pure
 
 //@ func (e XError) Code()
 //@   pure
+//@   ensures result == xcode(e)
 
 //@ func (e XError) Cause()
 //@   pure
